@@ -13,6 +13,7 @@ package main
 
 import (
 	"fmt"
+	"os"
 	"go/types"
 	"regexp"
 	"sort"
@@ -29,6 +30,8 @@ type fragment struct {
 	nAss   int // assumptions available at the end of the fragment
 	calls0 int // index into x.calls at the start of the fragment
 	calls1 int
+	headVars []*Term // loop fragments: the fresh configuration at the loop head, aligned with configObs
+	nAss0    int     // assumptions before the fragment's own (for loop fragments: before the invariant)
 }
 
 var lawRe = regexp.MustCompile(`^(EXT|RES|EXTSCAN|RESSCAN)\(([^)]*)\)\s*(?:when\s+(.*))?$`)
@@ -80,7 +83,7 @@ func paramIndex(fi *FuncInfo, name string) int {
 func (x *Exec) regionObs(st *State) []*Term {
 	var out []*Term
 	for _, r := range x.regions {
-		if r.Const > 0 {
+		if r.Const > 0 && !(r.ElemT != nil && containsArray(r.ElemT)) {
 			for k := range r.Sorts {
 				h := x.heapOf(st, r.Sorts[k])
 				out = append(out, Select(Select(h, BVAdd(r.Blk, BV(int64(r.Tags[k]), 32))), BVAdd(r.Off, BV(int64(r.Offs[k]), 64))))
@@ -110,9 +113,16 @@ func (x *Exec) configObs(fr *Frame, st *State, ld *loopData) []*Term {
 		id int
 	}
 	var as []ai
+	var live map[*ssa.Alloc]bool
+	if ld != nil {
+		live = liveAt(fr.fn, ld.header)
+	}
 	for al, id := range fr.allocs {
 		if ld != nil && ld.blocks[al.Block()] {
 			continue // declared inside the loop: re-created in every iteration, dead at the loop head
+		}
+		if live != nil && regLike(al) && !live[al] {
+			continue // dead at the loop head: cannot influence the rest of the run
 		}
 		as = append(as, ai{al, id})
 	}
@@ -201,6 +211,7 @@ func (x *Exec) havocLoopState(fr *Frame, ld *loopData, st *State) {
 			x.havocRegion(st, r, fmt.Sprintf("L%d.m%d", ld.ord, ri+1))
 		}
 	}
+	x.lastHeadVars = x.configObs(fr, st, ld)
 	for k, g := range x.Top.LoopInv[ld.ord] {
 		c := lc.Invs[k]
 		if !x.tagOn(c.Tags) {
@@ -242,8 +253,9 @@ func (x *Exec) fragments(st *State, args []Val) (*Frame, []*fragment) {
 			ld := ci.loops[h]
 			sth := x.mergeArr(arrs).clone()
 			// the guard of an arbitrary iteration: we did enter the loop
+			n0 := len(x.Assumes)
 			x.havocLoopState(fr, ld, sth)
-			f := &fragment{name: fmt.Sprintf("loop%d", ld.ord), ld: ld, calls0: len(x.calls)}
+			f := &fragment{name: fmt.Sprintf("loop%d", ld.ord), ld: ld, calls0: len(x.calls), headVars: x.lastHeadVars, nAss0: n0}
 			fr.frag = &fragOut{arr: map[*ssa.BasicBlock][]*State{}}
 			fr.fragStart = h
 			f.rets = x.runBody(fr, sth)
@@ -279,6 +291,8 @@ func (x *Exec) proveLaws() {
 		switch ls.kind {
 		case "EXT", "EXTSCAN":
 			x.lawEXT(fr, frags, ls, args, nEntry)
+		case "RES", "RESSCAN":
+			x.lawRES(fr, frags, ls, args, nEntry)
 		default:
 			x.fail("law %s not implemented", ls.kind)
 		}
@@ -426,4 +440,450 @@ func (x *Exec) calleeLawHyps(f *fragment, env *lawEnv, kind string) []*Term {
 		out = append(out, Implies(And(append(prem, c.Guard, definitive)...), And(concl...)))
 	}
 	return out
+}
+
+// ---------------------------------------------------------------------------------------------------------
+// RES(buf, offs): if the run on the short buffer suspends (verdict MoreBytes) at offset n1 leaving the object
+// in state S1, then the call resumed from (n1, S1) on the long buffer behaves like the call on the long
+// buffer from the original (offs, S). Obligations, per fragment F in which run A returns MoreBytes:
+//   pre:   the resumed call satisfies the precondition
+//   meet:  let E be the entry fragment of the resumed call (long buffer, offs := n1, object := S1) and B the
+//          same fragment F on the long buffer. Then one of
+//            (a) E reaches the loop head in exactly the configuration A suspended in,
+//            (b) B's outcome equals the resumed run's outcome after its first iteration (or E's own return),
+//            (c) B's next configuration is the configuration E reaches.
+// With the EXT lock-step (runs A and B share the configuration until A returns) this gives, by induction,
+// that the resumed and the one-shot run coincide from there on.
+
+// heapSubst: substitution of the base heap variables by themselves with the regions' cells replaced by obs
+// (obs in regionObs order).
+func (x *Exec) heapSubst(obs []*Term) map[*Term]*Term {
+	cur := map[*Sort]*Term{}
+	get := func(s *Sort) *Term {
+		if h, ok := cur[s]; ok {
+			return h
+		}
+		h := x.baseHeapOf(s)
+		cur[s] = h
+		return h
+	}
+	i := 0
+	for _, r := range x.regions {
+		if r.Const > 0 && !(r.ElemT != nil && containsArray(r.ElemT)) {
+			for k := range r.Sorts {
+				s := r.Sorts[k]
+				h := get(s)
+				b := BVAdd(r.Blk, BV(int64(r.Tags[k]), 32))
+				cur[s] = Store(h, b, Store(Select(h, b), BVAdd(r.Off, BV(int64(r.Offs[k]), 64)), obs[i]))
+				i++
+			}
+			continue
+		}
+		type tk struct {
+			t int
+			s *Sort
+		}
+		seen := map[tk]bool{}
+		for k, s := range r.Sorts {
+			if seen[tk{r.Tags[k], s}] {
+				continue
+			}
+			seen[tk{r.Tags[k], s}] = true
+			h := get(s)
+			cur[s] = Store(h, BVAdd(r.Blk, BV(int64(r.Tags[k]), 32)), obs[i])
+			i++
+		}
+	}
+	m := map[*Term]*Term{}
+	for s, h := range cur {
+		m[x.baseHeapOf(s)] = h
+	}
+	return m
+}
+
+type outcome struct {
+	retG  *Term
+	retO  []*Term // results ++ region observables
+	arrG  map[*ssa.BasicBlock]*Term
+	arrC  map[*ssa.BasicBlock][]*Term
+	heads []*ssa.BasicBlock
+}
+
+func (x *Exec) outcomeOf(fr *Frame, f *fragment) *outcome {
+	o := &outcome{retG: False(), arrG: map[*ssa.BasicBlock]*Term{}, arrC: map[*ssa.BasicBlock][]*Term{}}
+	if len(f.rets) > 0 {
+		ms, mv := x.mergeRets(f.rets)
+		o.retG = ms.G
+		o.retO = append(append([]*Term{}, mv.C...), x.regionObs(ms)...)
+	}
+	ci := analyzeCFG(x.Top.Fn)
+	for h, sts := range f.arr {
+		ma := x.mergeArr(sts)
+		o.arrG[h] = ma.G
+		o.arrC[h] = x.configObs(fr, ma, ci.loops[h])
+		o.heads = append(o.heads, h)
+	}
+	sort.Slice(o.heads, func(i, j int) bool { return o.heads[i].Index < o.heads[j].Index })
+	return o
+}
+
+func (o *outcome) subst(e *lawEnv) *outcome {
+	n := &outcome{retG: e.B(o.retG), arrG: map[*ssa.BasicBlock]*Term{}, arrC: map[*ssa.BasicBlock][]*Term{}, heads: o.heads}
+	for _, t := range o.retO {
+		n.retO = append(n.retO, e.B(t))
+	}
+	for h, g := range o.arrG {
+		n.arrG[h] = e.B(g)
+		for _, t := range o.arrC[h] {
+			n.arrC[h] = append(n.arrC[h], e.B(t))
+		}
+	}
+	return n
+}
+
+func eqAll(a, b []*Term, skip *Term) *Term {
+	if len(a) != len(b) {
+		return False()
+	}
+	var es []*Term
+	for i := range a {
+		if skip != nil && (a[i] == skip || b[i] == skip) {
+			continue
+		}
+		if a[i].S != b[i].S {
+			return False()
+		}
+		es = append(es, Eq(a[i], b[i]))
+	}
+	return And(es...)
+}
+
+// sameOutcome: both return with the same observables, or both reach the same head in the same configuration
+func sameOutcome(p, q *outcome, skipP, skipQ *Term) *Term {
+	var alts []*Term
+	if len(p.retO) > 0 && len(q.retO) > 0 {
+		alts = append(alts, And(p.retG, q.retG, eqAll(p.retO, q.retO, nil)))
+	}
+	for _, h := range p.heads {
+		if qc, ok := q.arrC[h]; ok {
+			alts = append(alts, And(p.arrG[h], q.arrG[h], eqCfg(p.arrC[h], qc, skipP, skipQ)))
+		}
+	}
+	return Or(alts...)
+}
+
+// eqCfg compares configurations, ignoring the cell that holds the buffer length (it differs by construction)
+func eqCfg(a, b []*Term, skipA, skipB *Term) *Term {
+	if len(a) != len(b) {
+		return False()
+	}
+	var es []*Term
+	for i := range a {
+		if (skipA != nil && a[i] == skipA) || (skipB != nil && b[i] == skipB) || a[i] == skipB || b[i] == skipA {
+			continue
+		}
+		if a[i].S != b[i].S {
+			return False()
+		}
+		es = append(es, Eq(a[i], b[i]))
+	}
+	return And(es...)
+}
+
+func (x *Exec) lawRES(fr *Frame, frags []*fragment, ls *lawSpec, args []Val, nEntry int) {
+	fi := x.Top
+	if len(ls.params) != 2 {
+		x.fail("RES(buf, offs) takes the buffer and the offset parameter")
+	}
+	bi, oi := paramIndex(fi, ls.params[0]), paramIndex(fi, ls.params[1])
+	if bi < 0 || oi < 0 {
+		x.fail("RES: unknown parameter")
+	}
+	L := args[bi].C[2]
+	L2 := Var(L.Name+"@long", BV64)
+	offsVar := args[oi].C[0]
+	vc := verdictCell(fi)
+	if ls.kind == "RESSCAN" {
+		vc = -1
+	}
+	st0 := &State{G: True(), Loc: map[int][]*Term{}, Heap: map[*Sort]*Term{}}
+	when := x.whenTerm(fi, ls, args, st0)
+	envB := &lawEnv{sub: map[*Term]*Term{L: L2}, memo: map[*Term]*Term{}}
+	f0 := frags[0]
+	out0 := x.outcomeOf(fr, f0)
+	fragByHead := map[*ssa.BasicBlock]*fragment{}
+	outByHead := map[*ssa.BasicBlock]*outcome{}
+	for _, f := range frags[1:] {
+		fragByHead[f.ld.header] = f
+		outByHead[f.ld.header] = x.outcomeOf(fr, f)
+	}
+	isReq := map[*Term]bool{}
+	for _, t := range x.reqTerms {
+		isReq[t] = true
+	}
+	for fidx, f := range frags {
+		var oA *outcome
+		if fidx == 0 {
+			oA = out0
+		} else {
+			oA = outByHead[f.ld.header]
+		}
+		if len(oA.retO) == 0 {
+			continue
+		}
+		n1 := oA.retO[0]
+		nres := len(oA.retO) - len(x.regionObs(st0))
+		_ = nres
+		var suspended *Term
+		if vc >= 0 {
+			suspended = Eq(oA.retO[vc], BV(errMoreBytes, 32))
+		} else {
+			suspended = Eq(oA.retO[0], L)
+		}
+		// number of result cells
+		nr := 0
+		for _, t := range fi.RTypes {
+			nr += sizeOf(t)
+		}
+		S1 := oA.retO[nr:]
+		// resumed entry: long buffer, offs := n1, object := S1
+		subE := map[*Term]*Term{L: L2, offsVar: n1}
+		for k, v := range x.heapSubst(S1) {
+			subE[k] = v
+		}
+		envE := &lawEnv{sub: subE, memo: map[*Term]*Term{}}
+		E := out0.subst(envE)
+		B := oA.subst(envB)
+		// hypotheses
+		var extra []*Term
+		extra = append(extra, SLE(L, L2), when, envB.B(when))
+		for _, a := range x.Assumes[:f.nAss] {
+			if b := envB.B(a); b != a {
+				extra = append(extra, b)
+			}
+		}
+		for _, a := range x.Assumes[:f0.nAss] {
+			if isReq[a] {
+				continue // the resumed call's precondition is an obligation, not a hypothesis
+			}
+			if b := envE.B(a); b != a {
+				extra = append(extra, b)
+			}
+		}
+		extra = append(extra, x.calleeLawHyps(f, envB, "EXT")...)
+		extra = append(extra, x.calleeRESHyps(f, envB, envE, f0)...)
+		// second step of the resumed run: one iteration from the configuration E reaches
+		var alts []*Term
+		for _, h := range E.heads {
+			fh := fragByHead[h]
+			if fh == nil {
+				continue
+			}
+			subR := map[*Term]*Term{L: L2}
+			for i, hv := range fh.headVars {
+				if i < len(E.arrC[h]) && hv.Op == "var" && hv != L {
+					subR[hv] = E.arrC[h][i]
+				}
+			}
+			envR := &lawEnv{sub: subR, memo: map[*Term]*Term{}}
+			R2 := outByHead[h].subst(envR)
+			for _, a := range x.Assumes[fh.nAss0:fh.nAss] {
+				if b := envR.B(a); b != a {
+					extra = append(extra, Implies(E.arrG[h], b))
+				}
+			}
+			extra = append(extra, x.calleeRESHyps(fh, envB, envR, fh)...)
+			if os.Getenv("GOVC_DEBUG") != "" {
+				extra = append(extra, Eq(Var("probe!"+f.name+"!R2.retG", BoolS), R2.retG))
+				for k, t := range R2.retO {
+					extra = append(extra, Eq(Var(fmt.Sprintf("probe!%s!R2.ret%d", f.name, k), t.S), t))
+				}
+				for k, t := range E.arrC[h] {
+					if t.S.K != SArr {
+						extra = append(extra, Eq(Var(fmt.Sprintf("probe!%s!E.cfg%d", f.name, k), t.S), t))
+					}
+				}
+			}
+			// (a) the resumed call is back in the configuration the short run suspended in
+			if f.ld != nil && f.ld.header == h {
+				alts = append(alts, And(E.arrG[h], eqCfg(E.arrC[h], f.headVars, L2, L)))
+			}
+			// (b) after one more iteration the two agree
+			alts = append(alts, And(E.arrG[h], sameOutcome(B, R2, L2, L2)))
+			// (c) the long run's next configuration is where the resumed call starts
+			if bc, ok := B.arrC[h]; ok {
+				alts = append(alts, And(E.arrG[h], B.arrG[h], eqCfg(bc, E.arrC[h], L2, L2)))
+			}
+		}
+		// (b') the resumed call returns at once with what the long run returns / both reach the same head
+		alts = append(alts, sameOutcome(B, E, L2, L2))
+		mk := func(site string, goal *Term, note string) {
+			o := &Obligation{Name: fmt.Sprintf("%s/law:%s/%s/%s", x.TopKey, ls.kind, f.name, site), Kind: "law", Func: x.TopKey, Tags: ls.clause.Tags,
+				Guard: True(), Goal: goal, NAssume: f.nAss, Extra: extra, Expect: "unsat", ex: x, Note: note}
+			if f.ld != nil {
+				o.Pos = x.W.Fset.Position(f.ld.header.Instrs[0].Pos())
+			} else {
+				o.Pos = x.W.Fset.Position(fi.Fn.Pos())
+			}
+			x.Obls = append(x.Obls, o)
+		}
+		P := And(oA.retG, suspended)
+		if os.Getenv("GOVC_DEBUG") != "" {
+			probe := func(n string, t *Term) {
+				extra = append(extra, Eq(Var("probe!"+f.name+"!"+n, t.S), t))
+			}
+			probe("B.retG", B.retG)
+			probe("E.retG", E.retG)
+			for _, h := range E.heads {
+				probe("E.arrG", E.arrG[h])
+				if g, ok := B.arrG[h]; ok {
+					probe("B.arrG", g)
+				}
+			}
+			for k, t := range B.retO {
+				probe(fmt.Sprintf("B.ret%d", k), t)
+			}
+			for k, a := range alts {
+				probe(fmt.Sprintf("alt%d", k), a)
+			}
+		}
+		var pre []*Term
+		for _, t := range x.reqTerms {
+			pre = append(pre, envE.B(t))
+		}
+		mk("resume-pre", Implies(P, And(pre...)), "RES: the suspended state and offset satisfy the precondition of the resumed call")
+		mk("meet", Implies(P, Or(alts...)), "RES: the resumed call and the one-shot call on the longer buffer meet within one iteration")
+	}
+	_ = nEntry
+}
+
+// calleeRESHyps: instances of the callees' RES laws for the call sites of fragment f: run A (short), run B
+// (long, envB) and the resumed run (envY, whose arguments at this call site are the terms of fragment fy).
+func (x *Exec) calleeRESHyps(f *fragment, envB, envY *lawEnv, fy *fragment) []*Term {
+	var out []*Term
+	for _, c := range x.calls[f.calls0:f.calls1] {
+		var ls *lawSpec
+		for _, cl := range c.FI.C.Laws {
+			if l, err := parseLaw(cl); err == nil && (l.kind == "RES" || l.kind == "RESSCAN") && x.tagOn(cl.Tags) {
+				ls = l
+			}
+		}
+		if ls == nil || len(ls.params) != 2 {
+			continue
+		}
+		bi, oi := paramIndex(c.FI, ls.params[0]), paramIndex(c.FI, ls.params[1])
+		if bi < 0 || oi < 0 || bi >= len(c.ArgStart) || oi >= len(c.ArgStart) {
+			continue
+		}
+		lenIdx := c.ArgStart[bi] + 2
+		offIdx := c.ArgStart[oi]
+		// object: a pointer parameter whose whole pointee is the callee's modifies set
+		objStart, objN := -1, 0
+		nr := 0
+		for _, t := range c.FI.RTypes {
+			nr += sizeOf(t)
+		}
+		nOutObj := len(c.Outs) - nr
+		if nOutObj > 0 {
+			for pi, t := range c.FI.PTypes {
+				if pt, ok := t.Underlying().(*types.Pointer); ok && len(c.FI.C.Modifies) == 1 && strings.TrimSpace(c.FI.C.Modifies[0].Text) == "*"+c.FI.PNames[pi] {
+					if sizeOf(pt.Elem()) == nOutObj {
+						objStart, objN = c.ArgStart[pi]+2, nOutObj
+					}
+				}
+			}
+			if objStart < 0 {
+				continue // cannot line up the object cells with the footprint
+			}
+		}
+		vcell := verdictCell(c.FI)
+		var suspended *Term
+		if ls.kind == "RESSCAN" || vcell < 0 {
+			suspended = Eq(c.Res.C[0], c.FP[lenIdx])
+		} else {
+			suspended = Eq(c.Res.C[vcell], BV(errMoreBytes, 32))
+		}
+		var prem []*Term
+		prem = append(prem, c.Guard, suspended)
+		for k, t := range c.FP {
+			tb, ty := envB.B(t), envY.B(t)
+			switch {
+			case k == offIdx:
+				prem = append(prem, Eq(ty, c.Res.C[0]))
+			case objStart >= 0 && k >= objStart && k < objStart+objN:
+				prem = append(prem, Eq(ty, c.Outs[k-objStart]))
+			default:
+				prem = append(prem, Eq(tb, ty))
+			}
+		}
+		var concl []*Term
+		for _, o := range c.Outs {
+			concl = append(concl, Eq(envB.B(o), envY.B(o)))
+		}
+		out = append(out, Implies(And(prem...), And(concl...)))
+	}
+	_ = fy
+	return out
+}
+
+// liveAt: the register-like local variables that are live on entry to block h (may be read before being
+// written on some path from h).
+var liveCache = map[*ssa.BasicBlock]map[*ssa.Alloc]bool{}
+
+func liveAt(fn *ssa.Function, h *ssa.BasicBlock) map[*ssa.Alloc]bool {
+	if r, ok := liveCache[h]; ok {
+		return r
+	}
+	use := map[*ssa.BasicBlock]map[*ssa.Alloc]bool{}
+	def := map[*ssa.BasicBlock]map[*ssa.Alloc]bool{}
+	for _, b := range fn.Blocks {
+		use[b] = map[*ssa.Alloc]bool{}
+		def[b] = map[*ssa.Alloc]bool{}
+		for _, in := range b.Instrs {
+			switch i := in.(type) {
+			case *ssa.UnOp:
+				if al, ok := i.X.(*ssa.Alloc); ok && !def[b][al] {
+					use[b][al] = true
+				}
+			case *ssa.Store:
+				if al, ok := i.Addr.(*ssa.Alloc); ok && !use[b][al] {
+					def[b][al] = true
+				}
+			case *ssa.MakeClosure:
+				for _, bd := range i.Bindings {
+					if al, ok := bd.(*ssa.Alloc); ok && !def[b][al] {
+						use[b][al] = true
+					}
+				}
+			}
+		}
+	}
+	liveIn := map[*ssa.BasicBlock]map[*ssa.Alloc]bool{}
+	for _, b := range fn.Blocks {
+		liveIn[b] = map[*ssa.Alloc]bool{}
+	}
+	for changed := true; changed; {
+		changed = false
+		for i := len(fn.Blocks) - 1; i >= 0; i-- {
+			b := fn.Blocks[i]
+			for al := range use[b] {
+				if !liveIn[b][al] {
+					liveIn[b][al] = true
+					changed = true
+				}
+			}
+			for _, su := range b.Succs {
+				for al := range liveIn[su] {
+					if !def[b][al] && !liveIn[b][al] {
+						liveIn[b][al] = true
+						changed = true
+					}
+				}
+			}
+		}
+	}
+	for _, b := range fn.Blocks {
+		liveCache[b] = liveIn[b]
+	}
+	return liveIn[h]
 }
